@@ -367,7 +367,7 @@ pub fn gen_route(t: &mut Tape) -> Scenario {
                 open[i] = g.un(s, op);
             }
             4 => {
-                let op = g.gen_repl(s);
+                let op = if g.t.draw(2) == 0 { g.gen_repart() } else { g.gen_repl(s) };
                 open[i] = g.un(s, op);
             }
             5 => {
